@@ -190,6 +190,19 @@ impl World {
         }
     }
 
+    /// Wraps an existing cache (used after a multi-threaded phase).
+    pub fn adopt(cfg: Cfg, cache: AnyCache, clock: MockClock, base: Instant) -> World {
+        World {
+            cfg,
+            cache: Some(cache),
+            clock,
+            base,
+            mx: Arc::new(Mutex::new(Vec::new())),
+            last_resets: std::cell::Cell::new(0),
+            info_ids: Arc::new(Mutex::new(HashMap::new())),
+        }
+    }
+
     pub fn now(&self) -> i64 {
         ticks(self.base, Some(self.clock.now()))
     }
